@@ -12,10 +12,48 @@ import (
 	"verif/sim"
 )
 
+// absentMembers are keyword members of a schema that a typed document holds as a map, a slice or a
+// pointer (nil when the member is absent), and two names no schema has.
+var absentMembers = []string{"properties", "patternProperties", "dependencies", "definitions", "allOf", "anyOf", "oneOf", "enum", "required",
+	"not", "items", "additionalProperties", "additionalItems", "externalDocs", "xml", "maximum", "maxLength", "nosuchmember", "propertie"}
+
+// absentMemberOf returns ref extended by a member the schema it designates does not have ("" when
+// the target is not a plain schema object of this world).
+func absentMemberOf(w *model.World, docURL, ref string, r *sim.RNG) string {
+	if !strings.Contains(ref, "#/") {
+		return ""
+	}
+	u, ptr, err := model.Locate(docURL, ref)
+	if err != nil {
+		return ""
+	}
+	doc, ok := w.Docs[u]
+	if !ok {
+		return ""
+	}
+	v, ok := model.EvalPtr(doc, ptr)
+	m, isObj := v.(map[string]interface{})
+	if !ok || !isObj {
+		return ""
+	}
+	if _, isRef := m["$ref"]; isRef {
+		return ""
+	}
+	start := r.Intn(len(absentMembers))
+	for i := range absentMembers {
+		k := absentMembers[(start+i)%len(absentMembers)]
+		if _, has := m[k]; !has {
+			return ref + "/" + k
+		}
+	}
+	return ""
+}
+
 // InjectBad makes some references of the world unresolvable: dangling pointer, dangling
 // document, ill-typed target. Returns how many were injected.
 func InjectBad(w *model.World, r *sim.RNG, p float64, max int, allowNull bool) int {
 	n := 0
+	docURL := ""
 	var visit func(v interface{})
 	visit = func(v interface{}) {
 		switch c := v.(type) {
@@ -28,7 +66,7 @@ func InjectBad(w *model.World, r *sim.RNG, p float64, max int, allowNull bool) i
 					if strings.HasSuffix(ref, "#") {
 						suffix = "/x"
 					}
-					choice := r.Intn(4)
+					choice := r.Intn(5)
 					if allowNull && strings.Contains(ref, "#/definitions/") && r.Intn(5) == 0 {
 						choice = 8
 					}
@@ -38,6 +76,14 @@ func InjectBad(w *model.World, r *sim.RNG, p float64, max int, allowNull bool) i
 						c["$ref"] = ref + []string{"/additionalProperties/properties/name", "/additionalItems/items", "/items/0/not", "/not/additionalProperties"}[r.Intn(4)]
 					case 9:
 						c["$ref"] = ref + "%zz" // not even a URL (C04 only)
+					case 4:
+						// a member the designated schema does not have: in a typed document an absent
+						// map, slice or pointer member, or a name that is no keyword at all
+						if x := absentMemberOf(w, docURL, ref, r); x != "" && strings.Contains(ref, "/definitions/") {
+							c["$ref"] = x
+						} else {
+							c["$ref"] = ref + suffix
+						}
 					case 0:
 						c["$ref"] = ref + suffix // dangling pointer (or dangling document for whole-document refs)
 					case 1:
@@ -83,6 +129,7 @@ func InjectBad(w *model.World, r *sim.RNG, p float64, max int, allowNull bool) i
 	}
 	sort.Strings(us)
 	for _, u := range us {
+		docURL = u
 		visit(w.Docs[u])
 	}
 	return n
